@@ -633,6 +633,42 @@ func vrCaseBlock(c *vrCase) {
 			}
 		}
 	}
+	// histories on a reused key buffer: construct, overwrite the key buffer in place (another key, zeros, the first key
+	// again), construct again; every cipher must keep working under the key its constructor saw - the cipher may
+	// neither read the key slice later nor remember it for the next construction
+	for _, m := range []mk{{"NewCipher", NewCipher}, {"newCipherGeneric", newCipherGeneric}} {
+		buf := make([]byte, 16)
+		type made struct {
+			blk cipher.Block
+			key []byte
+		}
+		var all []made
+		keys := vrKeys(c, 4)
+		seq := [][]byte{keys[0], keys[1], make([]byte, 16), keys[0], keys[2], keys[1]}
+		src := vrBytes(c.rng, 16)
+		for step, k := range seq {
+			copy(buf, k)
+			var blk cipher.Block
+			var err error
+			in0 := fmt.Sprintf(`{"ctor":"%s","history":"step %d on a reused key buffer","key":"%s"`, m.name, step, vrHex(k))
+			if p := vrTry(func() { blk, err = m.f(buf) }); p != "" || err != nil || blk == nil {
+				c.check(false, in0+"}", fmt.Sprintf("%s err=%v", p, err), "cipher")
+				continue
+			}
+			all = append(all, made{blk, append([]byte{}, k...)})
+			// every cipher made so far, checked after the buffer has changed again
+			for j, mdd := range all {
+				want := make([]byte, 16)
+				vrNewBlock(mdd.key).Encrypt(want, src)
+				got := make([]byte, 16)
+				p := vrTry(func() { mdd.blk.Encrypt(got, src) })
+				c.check(p == "" && bytes.Equal(got, want), fmt.Sprintf(`%s,"op":"Encrypt with the cipher of step %d (key %s)","src":"%s"}`, in0, j, vrHex(mdd.key), vrHex(src)), p+vrHex(got), vrHex(want))
+				back := make([]byte, 16)
+				p = vrTry(func() { mdd.blk.Decrypt(back, want) })
+				c.check(p == "" && bytes.Equal(back, src), fmt.Sprintf(`%s,"op":"Decrypt with the cipher of step %d","src":"%s"}`, in0, j, vrHex(want)), p+vrHex(back), vrHex(src))
+			}
+		}
+	}
 	// key sizes other than 16 are rejected with an error (no panic), nil cipher
 	for _, l := range []int{0, 1, 8, 15, 17, 24, 32, 64} {
 		key := vrBytes(c.rng, l)
